@@ -40,6 +40,10 @@ def main(tier, seed):
         bad_init.append("k8_init failed: rc=%s lines=%d %s" % (p.returncode, len(k8_lines), p.stderr[-300:]))
     # variant table vs the model's masks
     k1 = common.build_harness("k1_algo", extra_src=["imbh.c"])
+    miss, vtab = common.missing_variants(k1)
+    if miss:
+        res.violation(dict(property=PID, what="implementation variants missing from the rebuilt library (init / power-up self test fails)",
+                           missing=miss, table=vtab), name="missing_variants")
     vt = common.run([k1, "--list-variants"], env=common.lib_env(), timeout=120).stdout
     variants = []
     for l in vt.splitlines():
